@@ -26,6 +26,12 @@ def main():
     if a.prop == 'C20':
         import runner_check
         return runner_check.main(a.prop, a.tier, a.seed, a.replay)
+    if a.prop == 'C15':
+        import system_check
+        return system_check.main(a.prop, a.tier, a.seed, a.replay)
+    if a.prop == 'C19':
+        import bdd_check
+        return bdd_check.main(a.prop, a.tier, a.seed, a.replay)
     print('unknown property', a.prop)
     return 2
 
